@@ -39,7 +39,7 @@ CHECKS = {
 	'C20': dict(
 		category='exploration',
 		technique='exhaustive index expressions (n<=4/6) over 3 container types + Hypothesis-generated expressions, equality pairs and list-mutation histories vs a Python list model',
-		text='Every int index, slice (all start/stop/step over a small range incl. step 0), index list of length <=3 and boolean mask is evaluated on SignatureArray, SignatureList and file-backed HDF5Signatures of length 0..4 (quick) / 0..6 (thorough) and compared with what a plain list of the arrays gives (selection, error class, k-mer spec, dtype, caller index array unmodified); longer collections in further container variants (int32 / uint64 bounds, windows with bounds[0] != 0, views, gzip-compressed files), ill-typed indices, unsigned indices up to 2^64-1, index containers NumPy wraps without copying (array.array, memoryview, __array__ objects: must come back unmodified), pickled and deep-copied containers, cross-container equality pairs (incl. reverse-complement prefixes and reference sets carrying identical release metadata) range objects (every start / stop / step over the small range) and 50-step SignatureList mutation histories (model-based, including sub-collections sliced off earlier, which must stay independent lists) are generated.',
+		text='Every int index, slice (all start/stop/step over a small range incl. step 0), index list of length <=3 and boolean mask is evaluated on SignatureArray, SignatureList and file-backed HDF5Signatures of length 0..4 (quick) / 0..6 (thorough) and compared with what a plain list of the arrays gives (selection, error class, k-mer spec, dtype, caller index array unmodified); longer collections in further container variants (int32 / uint64 bounds, windows with bounds[0] != 0, views, gzip-compressed files), ill-typed indices, unsigned indices up to 2^64-1, index containers NumPy wraps without copying (array.array, memoryview, __array__ objects: must come back unmodified), pickled and deep-copied containers, cross-container equality pairs (incl. reverse-complement prefixes and reference sets carrying identical release metadata) scalar results held while the rest of the collection is read, range objects (every start / stop / step over the small range) and 50-step SignatureList mutation histories (model-based, including sub-collections sliced off earlier, which must stay independent lists) are generated.',
 		note='Oracle is a Python list; view/copy semantics are not asserted. A Python bool as scalar index is excluded (list and NumPy semantics disagree). Three genuine defects found and repaired (see KNOWN_FINDINGS.txt).',
 		design='DESIGN.md §4 C20',
 	),
@@ -53,7 +53,7 @@ CHECKS = {
 	'C12': dict(
 		category='exploration',
 		technique='Hypothesis-generated signature collections: dump/load round trip vs a list model; generated foreign byte strings and foreign HDF5 files must be refused',
-		text='Round trips over k 1..32 (all four index widths, values up to 4^k-1), empty/all-empty signatures, both write paths, string/int64/uint64 IDs (also strings that all look like numbers), Unicode metadata and IDs (also not in normalisation form C) with nested JSON extra and every compression filter, stored integer types wider than / signed variants of the k-mer spec type, payloads above 64 Ki values, overwritten paths, pathlib paths, wrappers around already annotated wrappers (the outer labels count) and collections loaded from another signature file are compared field by field and index expression by index expression with a Python list model; generated non-signature files (empty, text, FASTA, random, gzip, short prefixes, HDF5 files of other kinds incl. signature-shaped files lacking only the marker, files carrying an HDF5 superblock at a non-zero offset such as a tar archive of a signature file) must raise SignaturesFileError, and corrupt HDF5-magic files some exception.',
+		text='Round trips over k 1..32 (all four index widths, values up to 4^k-1), empty/all-empty signatures, both write paths, string/int64/uint64 IDs (also strings that all look like numbers), Unicode metadata (up to 70 k characters) and IDs (also not in normalisation form C) with nested JSON extra and every compression filter, stored integer types wider than / signed variants of the k-mer spec type, payloads above 64 Ki values, overwritten paths, pathlib paths, wrappers around already annotated wrappers (the outer labels count) and collections loaded from another signature file are compared field by field and index expression by index expression with a Python list model; generated non-signature files (empty, text, FASTA, random, gzip, short prefixes, HDF5 files of other kinds incl. signature-shaped files lacking only the marker, files carrying an HDF5 superblock at a non-zero offset such as a tar archive of a signature file) must raise SignaturesFileError, and corrupt HDF5-magic files some exception.',
 		note='Strings contain no NUL / lone surrogates (not storable in HDF5 vlen strings). h5py/HDF5 are part of the system under test only through gambit\'s use of them.',
 		design='DESIGN.md §4 C12',
 	),
@@ -74,7 +74,7 @@ CHECKS = {
 	'C13': dict(
 		category='exploration',
 		technique='exhaustive enumeration of task completion orders (n<=5/6) through a controlled executor + Hypothesis-generated real-pool runs and injected unreadable files; oracle: per-file single result in input order',
-		text='All n! completion orders for n <= 5 (quick) / 6 (thorough) are imposed through the public executor= argument by an executor that completes task perm[i] only after perm[i-1] was collected; plus the all-done-before-collection schedule, real thread/process pools with worker counts 1..16 and size skew, sequential mode, the `signatures create -c N` command line, a reused caller-owned thread pool, earlier failing calls in the same process, a fault (missing file, directory, truncated gzip, invalid UTF-8, junk) a well-formed file without sequence data (empty, header only, empty gzip member), or a read failure of a drawn exception class (time-out, I/O error, StopIteration, futures errors, ...) injected at a drawn moment, at a drawn position. Result must be one signature per file in input order equal to the single-file result and to the definitional signature of the file content; a supplied executor is left open; an unreadable file fails the whole call.',
+		text='All n! completion orders for n <= 5 (quick) / 6 (thorough) are imposed through the public executor= argument by an executor that completes task perm[i] only after perm[i-1] was collected; plus the all-done-before-collection schedule, real thread/process pools with worker counts 1..16 and size skew, sequential mode, the `signatures create -c N` command line, a reused caller-owned thread pool, earlier failing calls in the same process, a fault (missing file, directory, truncated gzip, invalid UTF-8, junk) a well-formed file without sequence data (empty, header only, empty gzip member), a read failure of a drawn exception class (time-out, I/O error, StopIteration, futures errors, ...) injected at a drawn moment, or the death of the pool worker process handling the file, at a drawn position. Result must be one signature per file in input order equal to the single-file result and to the definitional signature of the file content; a supplied executor is left open; an unreadable file fails the whole call.',
 		note='Completion order is owned only for the ordered/instant executors; with real pools the OS schedules (sampled with skewed file sizes).',
 		design='DESIGN.md §4 C13',
 	),
@@ -88,14 +88,14 @@ CHECKS = {
 	'C10': dict(
 		category='exploration',
 		technique='Hypothesis-generated forests/matches with ALL permutations of the reference order (n<=6) and of the matched-taxon list vs a set-level consensus model',
-		text='For every generated case all reference orders (n <= 6; 200 drawn orders above) are classified in strict mode and consensus_taxon is run on all orders of the matched-taxon list; prediction, success/error flags, others-set, conflict warning (exactly the taxa strictly below the prediction) and primary match are compared with a set-level model, so order independence is checked by construction; a second phase edits the same live objects in place and re-checks; generated databases are also materialised with two different reference orders and queried in strict mode end to end, after which persisted genomes are moved to other taxa in memory (never flushed) and classified again.',
+		text='For every generated case all reference orders (n <= 6; 200 drawn orders above) are classified in strict mode and consensus_taxon is run on all orders of the matched-taxon list; prediction, success/error flags, others-set, conflict warning (exactly the taxa strictly below the prediction) and primary match are compared with a set-level model, so order independence is checked by construction; a second phase edits the same live objects in place and re-checks; generated databases are also materialised with two different reference orders and queried in strict mode end to end - through the library and through `gambit query --strict` with genome files, a signature file and the standard output of a real process -, after which persisted genomes are moved to other taxa in memory (never flushed) and classified again.',
 		note='Model: chain -> most specific; otherwise LCA of the minimal elements; no common ancestor -> failed. One genuine defect found and repaired (order-dependent consensus).',
 		design='DESIGN.md §4 C10',
 	),
 	'C04': dict(
 		category='exploration',
 		technique='Hypothesis-generated genome sets x permuted/padded signature files x 4 id attributes x broken variants; join oracle = id->signature dict built by the harness',
-		text='Databases are written with generated identifiers (nasty Unicode strings, 62-bit ints), unrelated signatures (incl. IDs that collide with another attribute or an outside genome) and drawn file order/names, the genome file in rollback-journal mode, WAL mode, or WAL mode with the true identifiers only in a hot write-ahead log beside a stale file; the directory under an awkward name (glob / URL metacharacters) beside decoy databases with similar names; after load_from_dir each genome must point at the signature stored under its own identifier and query() must report the bit-exact distance to that signature for every genome under several chunk sizes; every way of breaking completeness / id_attr / directory contents must raise.',
+		text='Databases are written with generated identifiers (nasty Unicode strings, 62-bit ints), unrelated signatures (incl. IDs that collide with another attribute or an outside genome) and drawn file order/names, the genome file in rollback-journal mode, WAL mode, or WAL mode with the true identifiers only in a hot write-ahead log beside a stale file; the directory under an awkward name (glob / URL metacharacters) beside decoy databases with similar names; after load_from_dir each genome must point at the signature stored under its own identifier and query() must report the bit-exact distance to that signature for every genome under several chunk sizes; every way of breaking completeness / id_attr (empty, unknown, or the attribute absent from the file) / directory contents must raise.',
 		note='Oracle built from what the harness wrote (dict id -> array) and R-JAC. Row (primary-key) order, membership and signature order are independent of each other. Signature IDs within a file are unique (as the property quantifies).',
 		design='DESIGN.md §4 C04',
 	),
@@ -116,14 +116,14 @@ CHECKS = {
 	'C16': dict(
 		category='exploration',
 		technique='Hypothesis-generated genome sets x 3x5 supply modes x options; CSV parse-back vs R-KMER -> R-JAC -> "%.4f" oracle; --square metamorphic equality',
-		text='The dist command is run for generated query/reference genome sets (multi-contig, gzip, nested directories, file names with commas/quotes/blanks/non-ASCII or looking like comments / shell syntax, any extension, soft-masked sequence) in every combination of supply modes, with/without -k/-p (k up to 32), -c and progress, absolute or relative paths, list files used from a working directory holding decoy files or without a directory option, output over a longer pre-existing file, optionally after an earlier run on different content at the same paths; the CSV is parsed back and header, row labels and every cell are compared with labels derived from the file names / stored IDs and distances from the reference models; --square must be symmetric with zero diagonal and equal the full run on the same genomes.',
+		text='The dist command is run for generated query/reference genome sets (multi-contig, gzip, nested directories, file names with commas/quotes/blanks/non-ASCII or looking like comments / shell syntax, any extension, soft-masked sequence) in every combination of supply modes, with/without -k/-p (k up to 32), -c and progress, absolute or relative paths, list files used from a working directory holding decoy files or without a directory option, output over a longer pre-existing file, a database configured through the root option or the environment without being used, optionally after an earlier run on different content at the same paths; the CSV is parsed back and header, row labels and every cell are compared with labels derived from the file names / stored IDs and distances from the reference models; --square must be symmetric with zero diagonal and equal the full run on the same genomes.',
 		note='File names exclude newline/NUL// and, for list files, leading/trailing blanks. In-process CLI via CliRunner.',
 		design='DESIGN.md §4 C16',
 	),
 	'C08': dict(
 		category='exploration',
 		technique='Hypothesis-generated worlds x batch plans (order/multiset x channel x gzip x file names x -c x progress x format, plus API chunk sizes); metamorphic row equality across plans + predicted row from R-KMER -> R-JAC -> R-TAX',
-		text='For each generated database and query set, 2-3 batch plans are executed (in-process CLI, csv/json/archive, positional / list-file / signature-file input, any order with duplicates, gzip, nested directories, nasty names, symbolic links named differently from their targets, -c 1..16, progress on/off, single/multi-member gzip, database via -d or GAMBIT_DB_PATH, output to a fresh file, over a longer pre-existing file, or to the standard output of a real sub-process, list files used from a working directory holding other genomes under the same relative names or without a directory option after a chdir; API with chunk sizes) and every output row must be present once per input in input order, carry the expected label and equal the model row of that genome - which makes it identical in every context; rows of the same genome are also compared directly across plans.',
+		text='For each generated database and query set, 2-3 batch plans are executed (in-process CLI, csv/json/archive, positional / list-file / signature-file input, any order with duplicates (separate files or the very same path repeated), gzip, nested directories, nasty names, symbolic links named differently from their targets, -c 1..16, progress on/off, single/multi-member gzip, database via -d or GAMBIT_DB_PATH, output to a fresh file, over a longer pre-existing file, or to the standard output of a real sub-process, list files used from a working directory holding other genomes under the same relative names or without a directory option after a chdir; API with chunk sizes) and every output row must be present once per input in input order, carry the expected label and equal the model row of that genome - which makes it identical in every context; rows of the same genome are also compared directly across plans.',
 		note='Process-pool scheduling under -c is sampled (C13 owns completion order at the API). Labels exclude newline/NUL//.',
 		design='DESIGN.md §4 C08',
 	),
@@ -144,7 +144,7 @@ CHECKS = {
 	'C18': dict(
 		category='exploration',
 		technique='model-based generation of command/library-call histories (Hypothesis lists of steps interpreted against a fresh database copy); invariant after every step: sha256 of both files, nothing flushed, commit raises',
-		text='Histories of 5..25 steps mixing every read-side command (query in all channels/formats, dist --use-db, signatures info/create --db-params, tree), failing commands, library queries with handles left open, ORM edits on each default session (attribute change, add, delete) (also one object both edited and deleted) followed by flush / autoflushing query / commit / rollback - none of which may even attempt a write -, and double opens of the signature file are run against a fresh copy of a generated database whose genome file is put into a drawn valid SQLite configuration (addressed through differently spelled paths; default, WAL, WAL with committed transactions still in the -wal file, a hot rollback journal left by a crashed writer, PERSIST, other page size, user_version, an older table layout, extra tables/indexes/views), interleaved with writable sessions on unrelated files and with another holder of an exclusive advisory lock on the signature file; after every step the sha256 and size of the .gdb and .gs must equal their initial values, the edited session\'s own connection must still show the original rows and commit() must have raised.',
+		text='Histories of 5..25 steps mixing every read-side command (query in all channels/formats, dist --use-db, signatures info/create --db-params, tree), failing commands, library queries with handles left open (optionally editing in place the arrays they were handed), ORM edits on each default session (attribute change, add, delete) (also one object both edited and deleted) followed by flush / autoflushing query / commit / rollback - none of which may even attempt a write -, and double opens of the signature file are run against a fresh copy of a generated database whose genome file is put into a drawn valid SQLite configuration (addressed through differently spelled paths; default, WAL, WAL with committed transactions still in the -wal file, a hot rollback journal left by a crashed writer, PERSIST, other page size, user_version, an older table layout, extra tables/indexes/views), interleaved with writable sessions on unrelated files and with another holder of an exclusive advisory lock on the signature file; after every step the sha256 and size of the .gdb and .gs must equal their initial values, the edited session\'s own connection must still show the original rows and commit() must have raised.',
 		note='Only the bytes of the two database files are compared. In-process CLI via CliRunner. One genuine defect found and repaired (D10: a write-ahead log beside the genome file was checkpointed into it by read-side use).',
 		design='DESIGN.md §4 C18',
 	),
@@ -194,7 +194,7 @@ def main():
 			kind_free_text='Hypothesis 6.168 generators + complete enumeration of small finite sub-domains, sharded over 16 worker processes; a hash-selected sample of the generated cases of every check is run again in a fresh interpreter started with python -O / -OO, another string-hash seed or development mode; explicit reference-model / round-trip / metamorphic oracles per property; shrunk failures become replay files',
 		)],
 		checks=checks,
-		notes='Every check: exit 0 = held on everything explored; exit 1 + "VIOLATION property=<id> replay=<path>"; exit 2 = harness error (never a VIOLATION). Seeds: VERIF_SEED. Known findings: /verif/KNOWN_FINDINGS.txt. Sensitivity: /verif/mutants (about 145 mutants incl. native and multi-site ones) and /verif/seeded (120 independently written breaking changes in six rounds; DESIGN.md sections 9-10 record which check catches which).',
+		notes='Every check: exit 0 = held on everything explored; exit 1 + "VIOLATION property=<id> replay=<path>"; exit 2 = harness error (never a VIOLATION). Seeds: VERIF_SEED. Known findings: /verif/KNOWN_FINDINGS.txt. Sensitivity: /verif/mutants (about 145 mutants incl. native and multi-site ones) and /verif/seeded (130 independently written breaking changes in seven rounds; DESIGN.md sections 9-10 record which check catches which).',
 		not_applicable=na,
 	)
 	with open(os.path.join(VERIF, 'MANIFEST.json'), 'w') as f:
